@@ -412,10 +412,12 @@ def random_op(rng, M, cls, ids):
         return ["remove_bond", *sorted(rng.choice(sorted(B, key=sorted)))]
     if r < 0.54:
         a = rng.choice(present)
-        return rng.choice([["set_atom_attribute", a, "label", rng.choice([1, 2, "z"])], ["set_atom_attribute", a, "atom_type", rng.choice(["H", "C", 7])], ["delete_atom_attribute", a, "label"]])
+        return rng.choice([["set_atom_attribute", a, "label", rng.choice([1, 2, "z", None, 0, ""])], ["set_atom_attribute", a, "atom_type", rng.choice(["H", "C", 7])], ["delete_atom_attribute", a, "label"]])
     if r < 0.60 and B:
         a, b = sorted(rng.choice(sorted(B, key=sorted)))
-        ch = [["set_bond_attribute", a, b, "bond_order", rng.choice([1, 2, 3])], ["delete_bond_attribute", a, b, "bond_order"]]
+        ch = [["set_bond_attribute", a, b, "bond_order", rng.choice([1, 2, 3])], ["delete_bond_attribute", a, b, "bond_order"],
+              # falsy and None values are values like any other (seeded C09h: None treated as "do not store")
+              ["set_bond_attribute", a, b, "label", rng.choice([None, 0, "", "w", 1.5, False])], ["delete_bond_attribute", a, b, "label"]]
         if cls in REACTION:
             ch += [["set_bond_attribute", a, b, "reaction", {"$change": rng.choice(model.ROLES)}], ["delete_bond_attribute", a, b, "reaction"]]
         return rng.choice(ch)
